@@ -220,12 +220,14 @@ def option_grid(rule, tier):
              {'arithmetic': 'rational'}, {'arithmetic': 'guarded', 'precision': 6, 'guard': 6},
              {'integer_quota': True}, {'defeat_batch': 'zero'},
              {'integer_quota': True, 'arithmetic': 'fixed', 'precision': 2},    # a whole-number quota met exactly (>= test)
-             {'arithmetic': 'integer'}, {'integer_quota': True, 'arithmetic': 'integer'}]
-        return g if tier != 'quick' else g[:8]
+             {'arithmetic': 'fixed', 'precision': 6, 'display': 2},             # values that print alike differ
+             {'arithmetic': 'integer'}, {'integer_quota': True, 'arithmetic': 'integer'}, {'arithmetic': 'rational', 'display': 2}]
+        return g if tier != 'quick' else g[:9]
     if rule in ('meek', 'warren'):
         g = [{}, {'arithmetic': 'fixed', 'precision': 6}, {'arithmetic': 'guarded', 'precision': 6, 'guard': 4},
+             {'arithmetic': 'fixed', 'precision': 6, 'omega': 2},      # a coarse omega: iterations end with a visible surplus
              {'defeat_batch': 'none'}, {'arithmetic': 'fixed', 'precision': 9, 'omega': 4}]
-        return g if tier != 'quick' else g[:3]
+        return g if tier != 'quick' else g[:4]
     return [{}]
 
 
@@ -379,6 +381,18 @@ def check_C01(res):
               12 if res.tier == 'quick' else 400, opts_list=({},))
     run_extra(res, eq_profiles(res.tier, res.seed), ['meek', 'warren'], per, 6 if res.tier == 'quick' else 200,
               opts_list=({}, {'arithmetic': 'fixed', 'precision': 6}))
+    # equal-ranking groups that contain withdrawn candidates (the parser must strip them from every group), all rules
+    rngw = random.Random(res.seed * 7 + 5)
+    wprofs = []
+    for p0 in eq_profiles(res.tier, res.seed + 1)[:400 if res.tier == 'quick' else 4000]:
+        k = rngw.randint(1, max(1, p0['ncand'] - 2))
+        wd = tuple(sorted(rngw.sample(range(1, p0['ncand'] + 1), k)))
+        if p0['nseats'] > p0['ncand'] - k:
+            continue
+        q = dict(p0)
+        q['withdrawn'] = wd
+        wprofs.append(q)
+    run_extra(res, wprofs, RULES, per, 8 if res.tier == 'quick' else 300, opts_list=({},))
 
 
 def check_C09(res):
@@ -414,6 +428,11 @@ def check_C09(res):
                     if o == n:
                         continue
                     okc = (o == 'hopeful' and n in ('elected', 'defeated')) or (rule == 'qpq' and o == 'elected' and n == 'hopeful')
+                    if okc and n == 'hopeful':
+                        # QPQ's restart: only in the round that follows an exclusion
+                        if not any(b['tag'] == 'defeat' and b['round'] == a['round'] - 1 for b in E.erecord['actions']):
+                            res.violation('candidate %s un-elected in round %d although nobody was excluded in round %d (qpq restart only after an exclusion)'
+                                          % (cid, a['round'], a['round'] - 1), wit(data, rule, opts))
                     if not okc:
                         res.violation('status %s -> %s for candidate %s at action %s (%s)' % (o, n, cid, a['tag'], rule), wit(data, rule, opts))
             prev = cs
@@ -485,7 +504,7 @@ def check_C02(res):
             if lo is not None and tot < lo and rule in WIGM_FAMILY:
                 res.violation('votes lost beyond rounding: total %s < %s at action %s (%s %s)' % (tot, lo, a['tag'], rule, opts), wit(data, rule, opts))
             if rule in ('meek', 'warren') and a['tag'] in ('iterate', 'end', 'defeat', 'elect') and lo is not None and tot != N:
-                if a['tag'] in ('iterate',):
+                if True:    # every recorded step of a Meek/Warren count shows a complete distribution
                     res.violation('meek distribution does not conserve: %s != %s at %s (%s %s)' % (tot, N, a['tag'], rule, opts), wit(data, rule, opts))
     run_counts(res, RULES, res.tier, res.seed, per, with_withdrawn=False)
     # equal rankings are in scope for the parametric Meek/Warren rules (the only rules that read them)
@@ -706,7 +725,42 @@ def check_C07(res):
                     return
             prev = a
 
+    def sure_losers(E, data, rule, opts):
+        """a run of consecutive batch exclusions: the batch's combined tallies plus all untransferred surplus are below the
+        lowest tally among the candidates that stay (tallies as recorded just before the batch)"""
+        acts = [a for a in E.erecord['actions'] if 'cstate' in a and a['tag'] != 'tie']
+        i = 0
+        while i < len(acts):
+            a = acts[i]
+            isb = a['tag'] == 'defeat' and any(k in a['msg'].lower() for k in ('sure loser', 'certain loser', 'batch')) \
+                and 'zero' not in a['msg'].lower()
+            if not isb or i == 0:
+                i += 1
+                continue
+            before = acts[i - 1]['cstate']
+            j = i
+            while j < len(acts) and acts[j]['tag'] == 'defeat' and acts[j]['msg'].split(':')[0] == a['msg'].split(':')[0]:
+                j += 1
+            after = acts[j - 1]['cstate']
+            batch = [cid for cid in before if before[cid]['state'] == 'hopeful' and after[cid]['state'] == 'defeated']
+            stay = [cid for cid in before if before[cid]['state'] == 'hopeful' and after[cid]['state'] == 'hopeful']
+            i = j
+            if not batch or not stay:
+                continue
+            q = fr(acts[i - 1]['quota']) if False else fr(a['quota'])
+            surplus = sum((max(Fraction(0), fr(c['vote']) - q) for c in before.values() if c['state'] == 'elected'), Fraction(0))
+            if rule in MEEK_FAMILY and acts[j - 1].get('surplus') is not None:
+                surplus = fr(a['surplus']) if a.get('surplus') is not None else surplus
+            total = sum((fr(before[cid]['vote']) for cid in batch), Fraction(0)) + surplus
+            nxt = min(fr(before[cid]['vote']) for cid in stay)
+            if not total < nxt:
+                res.violation('batch %s is not a set of sure losers: their tallies plus the untransferred surplus are %s, the next candidate has %s (%s %s)'
+                              % (batch, total, nxt, rule, opts), wit(data, rule, opts))
+                return
+
     def per(E, data, rule, opts, p, exc=None):
+        if exc is None and os.environ.get('C07_SURE', '1') == '1':
+            sure_losers(E, data, rule, opts)
         if exc is not None:
             if E is not None and not isinstance(exc, Timeout):
                 try:
@@ -777,14 +831,16 @@ def check_C07(res):
         if time.time() - t0 > (12 if res.tier == 'quick' else 300):
             break
         data = pdata(p)
-        for rule in ('scotland', 'wigm', 'mpls', 'qpq', 'cfer', 'meek-prf'):
+        for rule, o in (('scotland', {}), ('wigm', {}), ('mpls', {}), ('qpq', {}), ('cfer', {}), ('meek-prf', {}),
+                        ('meek', {'arithmetic': 'fixed', 'precision': 4, 'omega': 0}),      # a coarse omega: the exclusion window is the
+                        ('warren', {'arithmetic': 'fixed', 'precision': 4, 'omega': 1})):  # surplus, not omega
             try:
-                E = counted(data, rule, {})
+                E = counted(data, rule, o)
             except Exception:
                 continue
             res.evaluations += 1
             res.sig((rule, action_sig(E)))
-            per(E, data, rule, {}, p)
+            per(E, data, rule, o, p)
 
 
 def check_C08(res):
@@ -873,6 +929,8 @@ def check_C10(res):
         base = pdata(p)
         vs.append(('one-line layout', ' '.join(base.split('\n'))))
         vs.append(('comments', base.replace('\n', ' # c\n', 2).replace('0\n"', '0 /* x /* y */ z */\n"', 1)))
+        # comment text that looks like other syntax: a # and a quoted word inside block comments, between the ballot lines
+        vs.append(('tricky comments', base.replace('\n', ' /* precinct # 1 */\n', 1).replace('\n', '\n/* listed as "Leda" # once */\n', 1)))
         n = p['ncand']
         nicks = ['n%s' % chr(96 + i) for i in range(1, n + 1)]
         bl = blt(n, p['nseats'], [(m, [nicks[c - 1] for c in r]) for m, r in lines], (), (), None)
@@ -1007,6 +1065,8 @@ def check_C17(res):
                             ('defeat_batch', ['zero', 'none', 'safe'])):
                 if rng.random() < 0.6:
                     o[k] = rng.choice(vals)
+            if rng.random() < 0.5:
+                o[rng.choice(['prexision', 'gaurd', 'colour'])] = rng.choice([7, 'x'])      # a misspelt option nobody asks for
             fileopts = ['%s=%s' % (k, v) for k, v in o.items() if rng.random() < 0.5]
             cmd = {k: v for k, v in o.items() if '%s=%s' % (k, v) not in fileopts}
             d2 = pdata(p).replace('\n', '\n[droop %s]\n' % ' '.join(fileopts), 1) if fileopts else data
@@ -1018,6 +1078,31 @@ def check_C17(res):
             res.evaluations += 1
             if E2.dump() != base:
                 res.violation('statutory rule %s counts differently under options %s / file %s' % (rule, cmd, fileopts), wit(d2, rule, cmd, {'base_blt': data}))
+            reporting(E2, d2, rule, cmd)
+
+    def reporting(E2, d2, rule, cmd):
+        "the record reports the four layers and the effective values by precedence; the report names unused and overridden options"
+        rec = E2.record()['options']
+        L = {k: rec[k] for k in ('force', 'cmd', 'file_options', 'default')}
+        names = set().union(*[set(v) for v in L.values()])
+        for k in names:
+            want = L['force'].get(k, L['cmd'].get(k, L['file_options'].get(k, L['default'].get(k))))
+            if rec['options'].get(k) != want or (k not in rec['options']):
+                res.violation("record['options']['options'][%r] is %r, the layers give %r (%s)" % (k, rec['options'].get(k), want, rule), wit(d2, rule, cmd))
+                return
+        supplied = dict(L['file_options'])
+        supplied.update(L['cmd'])
+        unused = sorted(k for k in supplied if k not in ('rule', 'path') and k not in L['default'])
+        over = sorted(k for k, v in L['force'].items() if k in supplied and supplied[k] != v)
+        head = E2.report().split('Seats:')[0]
+        for label, lst in (('Unused options', unused), ('Overridden options', over)):
+            line = [ln for ln in head.splitlines() if ln.strip().startswith(label + ':')]
+            if lst and (len(line) != 1 or line[0].split(':', 1)[1].strip() != ', '.join(lst)):
+                res.violation('report header does not name the %s %s (found %r) (%s)' % (label.lower(), lst, line, rule), wit(d2, rule, cmd))
+                return
+            if not lst and line:
+                res.violation('report header names %s although there are none: %r (%s)' % (label.lower(), line, rule), wit(d2, rule, cmd))
+                return
     run_counts(res, STATUTORY, res.tier, res.seed, per, with_withdrawn=False, grid=False)
 
 
